@@ -19,15 +19,15 @@ import (
 )
 
 type c08Host struct {
-	Idx      int    `json:"idx"`
-	Name     string `json:"name"`
-	Kind     string `json:"kind"`
-	Age      string `json:"age"`
-	Conn     string `json:"conn"`     // live, closed, rereg-closeold, rereg-keepold
-	Behave   string `json:"whitelist"` // ack, slowack, lateack, error, noresult, never
-	Tracked  bool   `json:"already_peer"`
-	age      time.Duration
-	delay    time.Duration
+	Idx     int    `json:"idx"`
+	Name    string `json:"name"`
+	Kind    string `json:"kind"`
+	Age     string `json:"age"`
+	Conn    string `json:"conn"`      // live, closed, rereg-closeold, rereg-keepold
+	Behave  string `json:"whitelist"` // ack, slowack, lateack, error, noresult, never
+	Tracked bool   `json:"already_peer"`
+	age     time.Duration
+	delay   time.Duration
 }
 
 var c08Ages = []time.Duration{0, 30 * time.Second, 119900 * time.Millisecond, 120100 * time.Millisecond, 300 * time.Second}
